@@ -258,6 +258,21 @@ func c14Transfer(cc c14Cell, env *Env) CellResult {
 				}
 			}
 
+			// in every third case both sides also hold a cache registered under the empty name (what Config.Name is by
+			// default): the exporter cannot be asked for it, so it stays as it is - and the other caches are filled
+			if (assign+si)%3 == 0 {
+				x := newXfer(cc.Src)
+				c14Fill(x, cc.Src, set, "unnamed")
+				expC[""] = x
+				exp.AddCache("", x.WDR())
+
+				y := newXfer(cc.Dst)
+				c14Fill(y, cc.Dst, []c14Entry{{KeyLen: 2, Val: 1}}, "zz")
+				impC[""] = y
+				before[""], _, _ = y.Snapshot()
+				imp.AddCache("", y.WDR())
+			}
+
 			tr := &inproc{h: exp.Export(), perturb: cc.Perturb, cutAt: -1, failAt: -1}
 			imp.Transport = tr
 
@@ -308,6 +323,10 @@ func c14Transfer(cc c14Cell, env *Env) CellResult {
 					}
 
 					outcome = "refused"
+				case name == "":
+					if msg := compareSnap("importer cache with the empty name (the exporter cannot be asked for it)", before[name], got); msg != "" {
+						bad("unnamed-cache-touched", msg, extra)
+					}
 				case both:
 					want, _, _ := src.Snapshot()
 					if msg := compareSnap("importer cache "+name, want, got); msg != "" {
@@ -786,7 +805,7 @@ func init() {
 	Register(&Prop{
 		ID: "C14", Title: "HTTP transfer imports exactly what was exported and refuses mismatched types",
 		Cells: c14Cells, Run: c14Run,
-		Rule: "(transfer) all 27 assignments of cache names {a,b,c} to exporter-only / importer-only / both x every entry set of <=2 entries over the C13 alphabet x backend pairing x request perturbation " +
+		Rule: "(transfer) all 27 assignments of three cache names (two of them need URL escaping) to exporter-only / importer-only / both, in every third case plus a cache under the empty name on both sides, x every entry set of <=2 entries over the C13 alphabet x backend pairing x request perturbation " +
 			"{none, types hash altered, types hash missing, name altered, name missing}, through an in-process RoundTripper that calls the Export handler (no sockets); " +
 			"(faults) the response body cut, and separately the body read failing, at EVERY byte offset; (hash) every registration sequence of length <=4 with repetitions over a pool of 4 types (struct, nested struct, map, and a struct registered through a pointer) (340) x every way of splitting it into variadic GobRegister calls, each in a fresh process",
 		Assumptions: []string{
